@@ -380,3 +380,11 @@ impl WriteBackend for RecBe {
     }
     fn remove(&self, _tpe: FileType, _id: &crate::id::Id, _c: bool) -> RusticResult<()> { Ok(()) }
 }
+
+// ---------------------------------------------------------------------------
+// native replay flag: the driver's generated playback tests call set_replay() first.  Under verification nothing
+// reachable writes the flag, so replay_mode() is constant false.
+// ---------------------------------------------------------------------------
+static REPLAY: AtomicBool = AtomicBool::new(false);
+pub(crate) fn set_replay() { REPLAY.store(true, SeqCst); }
+pub(crate) fn replay_mode() -> bool { REPLAY.load(SeqCst) }
